@@ -25,10 +25,14 @@ import (
 	_ "golang.org/x/crypto/blake2s"
 	_ "golang.org/x/crypto/ripemd160"
 
+	"verifharness/fc"
 	"verifharness/h"
 )
 
-func TestMain(m *testing.M) { h.Main(m) }
+func TestMain(m *testing.M) {
+	h.FirstCallsChild(fc.Pow()) // never returns in a first-call child process
+	h.Main(m)
+}
 
 const (
 	hangBound = 45 * time.Second // Mine must return within this after the context is cancelled (expected: milliseconds)
@@ -544,3 +548,6 @@ func TestRuns(t *testing.T) {
 		Rule:    "configurations {v1, v2} x workers {1,2,3,4,5,6,7,8,12,16,32,64} x GOMAXPROCS {1,2,4,16} x data {0..40 bytes, one in six 100..5000 bytes} x target {every lane qualifies, easy, moderate (~3^8 hashes), unattainable} x cancellation {never, before the call, after 0..5 ms, racing with the find after 0..3000 scheduler yields, by a context deadline} x context kind {context.WithCancel, context.Background (nil Done channel), a context type of the harness (lazily created Done channel; optionally yielding the processor inside Done and Err), a value-carrying grandchild, cancel-with-cause, a context with a deadline one hour away that is cancelled by its own cancel function or through its parent} x (v1) digest function {default, SHA-1, MD5, SHA-224, RIPEMD-160, SHA-256, BLAKE2s}; data handed over as the front part of a larger caller buffer whose tail another goroutine of the caller reads meanwhile (must stay untouched); (err == nil and Score >= target) or (cancellation error and ctx cancelled); returns within 45 s of cancellation (expected ms); no goroutine with a pkg/pow frame (nor a context-forwarding goroutine of a context derived inside Mine) alive 5 s after return; binary built with -race (any report is a violation); non-trivial = >= 2 workers and (cancellation used or every-lane target); distinct by configuration",
 	})
 }
+
+// which public entry point is called first in a process (and by how many goroutines at once)
+func TestFirstCalls(t *testing.T) { h.FirstCallsSub(t, "C13", fc.Pow(), 6) }
